@@ -32,6 +32,7 @@ func runC12(r *engine.Run) {
 	r.Rule("AGREE-persist", "see C10: serialised fields = deserialised fields")
 	r.Rule("LOCK-mark", "each worker of GetPath's parallel collection holds a mutex from before its markToCollect call until after the write-back of the marked child (Lock dominates the call, no Unlock in between)")
 	r.Rule("AGREE-ref", "every hashNode built in the package has both its hash and its weight set: a reference stands for a subtree's identity and weight")
+	r.Rule("REF-shortref", "no hash reference is built from a value of static type *shortNode (its Hash()/CalcHash()/hash field): a shared-prefix node is never replaced by a bare hash of itself - it stays a shortNode with a collapsed value, embedded in its parent branch - so exports and later deletes see the same node kinds as the full trie")
 	r.Rule("AGREE-slotpos", "markToCollect descends into branch slot key[pos] continuing at pos+1, and below a shared-prefix node n continuing at pos+len(n.key) only where bytes.Equal(n.key, key[pos:pos+len(n.key)]) tested true: the nodes marked for export are exactly those on the requested key's path")
 	r.Rule("AGREE-copyroot", "in CopyRoot of a node kind with children every return not reached under level == collapseLevel is a newly built node of the receiver's own kind whose child slots are filled only by CopyRoot(level+1, collapseLevel) of the children: above the collapse level a snapshot has the same node kinds as the trie (the shallow Copy() turns embedded shared-prefix children into bare hash references)")
 	r.Rule("ORDER-errstore", "in the weighted trie a store of the node result of a call that also returns an error into a field or slot of a live (not freshly built) node is reached only where that error tested nil: a failed storage read never erases a slot of the in-memory trie")
@@ -52,6 +53,7 @@ func runC12(r *engine.Run) {
 	orderErrStore(r, "ORDER-errstore")
 	agreeCopyRoot(r, "AGREE-copyroot")
 	agreeSlotPos(r, "AGREE-slotpos")
+	refShortRef(r, "REF-shortref")
 }
 
 func exhWSubset(r *engine.Run, rule string, name string) {
@@ -341,6 +343,7 @@ func runC13(r *engine.Run) {
 	r.Rule("DOM-sameroot", "every storage delete in RollbackTrie is reached only where bytes.Equal(requested root hash, current root hash) did not test true: asked for the root it already has, RollbackTrie purges nothing")
 	r.Rule("DOM-cleanfail", "see C11: a failed delete leaves its search path clean (otherwise the next commit records unchanged checkpoint nodes as created and a rollback deletes them)")
 	r.Rule("AGREE-created", "in each arm of commit a node's hash is recorded as created under the same 'hash changed' condition under which its previous hash is recorded as deleted: a node whose hash did not change existed at the checkpoint and must not be removed by a rollback")
+	r.Rule("DOM-rollbackinstalls", "every return of RollbackTrie that is reachable after a storage operation is dominated by the store of the node argument into the root field: the rollback, which has no result, installs the requested root also when the purge of the rolled-back commit's nodes fails")
 	r.Rule("FRESH-hashbuf", "a node's hash, once computed, is an immutable value: in the weighted trie no value derived from a load of a node's hash field is the destination of copy, the base of append, the target of an element store or, re-sliced, an argument of a call. Hash() hands out the slice itself and the checkpoint, the scheduled deletes and the hash references keep it uncopied")
 	r.Rule("DOM-createdkept", "in Commit every reset of the created list (a store of nil / an empty slice into the field, directly or in a callee up to two levels down) is reached only on paths where the root's Dirty() tested true: a Commit that has nothing to save leaves the list a rollback works from alone")
 	r.NotDec = append(r.NotDec, "resolvability of every checkpoint node after rollback for every history (value-level)")
@@ -353,6 +356,7 @@ func runC13(r *engine.Run) {
 	rollbackInstalls(r, "AGREE-rollback")
 	domCleanFail(r, "DOM-cleanfail")
 	domCreatedKept(r, "DOM-createdkept")
+	domRollbackInstalls(r, "DOM-rollbackinstalls")
 	freshHashBuf(r, "FRESH-hashbuf")
 }
 
@@ -408,6 +412,24 @@ func agreeRollback(r *engine.Run) {
 			continue
 		}
 		reset, del, commit := bookkeepingResets(f)
+		// a helper of the same object that the rollback calls with nothing but the
+		// receiver (the purge extracted into a method) is part of the rollback
+		engine.Instrs(f, func(in ssa.Instruction) {
+			c, ok := in.(*ssa.Call)
+			if !ok {
+				return
+			}
+			g := c.Call.StaticCallee()
+			if g == nil || g == f || len(g.Blocks) == 0 || g.Pkg != f.Pkg || g.Signature.Recv() == nil || len(c.Call.Args) != 1 || c.Call.Args[0] != ssa.Value(f.Params[0]) {
+				return
+			}
+			r2, d2, c2 := bookkeepingResets(g)
+			for k := range r2 {
+				reset[k] = true
+			}
+			del = del || d2
+			commit = commit || c2
+		})
 		var missing []string
 		for _, w := range want {
 			if !reset[w] {
@@ -1125,7 +1147,19 @@ func domSameRoot(r *engine.Run, rule string) {
 	o := ord{}
 	engine.Instrs(f, func(in ssa.Instruction) {
 		c, ok := in.(*ssa.Call)
-		if !ok || !c.Call.IsInvoke() || c.Call.Method.Name() != "Delete" {
+		if !ok {
+			return
+		}
+		deletes := c.Call.IsInvoke() && c.Call.Method.Name() == "Delete"
+		if g := c.Call.StaticCallee(); !deletes && g != nil && g != f && g.Pkg == f.Pkg && len(g.Blocks) > 0 && g.Signature.Recv() != nil {
+			// the purge extracted into a method of the trie
+			engine.Instrs(g, func(i2 ssa.Instruction) {
+				if c2, ok := i2.(*ssa.Call); ok && c2.Call.IsInvoke() && c2.Call.Method.Name() == "Delete" && isNamed(c2.Call.Value.Type(), pkgStore, "Batcher") {
+					deletes = true
+				}
+			})
+		}
+		if !deletes {
 			return
 		}
 		n++
@@ -1276,4 +1310,71 @@ func domCreatedKept(r *engine.Run, rule string) {
 	if n < 1 {
 		r.Anchor(rule, fmt.Errorf("unresolved anchor: no reset of the created list reachable from Commit"))
 	}
+}
+
+// domRollbackInstalls: a rollback has no result: it cannot report that it did
+// not happen. Once it has passed its "nothing to do" tests, it installs the
+// requested root on every path; a storage failure while purging the rolled-back
+// commit's nodes must not leave the trie at the rolled-back root.
+//
+// Rule: every return of RollbackTrie that is reachable after a storage
+// operation (NewBatch / Delete / Commit on the batch) is dominated by the store
+// of the node argument into the root field.
+func domRollbackInstalls(r *engine.Run, rule string) {
+	f := wfn(r, rule, "RollbackTrie")
+	if f == nil {
+		return
+	}
+	var rootStore *ssa.Store
+	var storageOps []ssa.Instruction
+	engine.Instrs(f, func(in ssa.Instruction) {
+		switch x := in.(type) {
+		case *ssa.Store:
+			if fld := engine.FieldOf(x.Addr); fld != nil && fld.Name() == "root" && !nilConst(x.Val) {
+				v := stripConv(x.Val)
+				if _, isParam := v.(*ssa.Parameter); isParam {
+					rootStore = x
+				}
+				if ph, isPhi := v.(*ssa.Phi); isPhi {
+					for _, e := range ph.Edges {
+						if _, isParam := stripConv(e).(*ssa.Parameter); isParam {
+							rootStore = x
+						}
+					}
+				}
+			}
+		case *ssa.Call:
+			if x.Call.IsInvoke() {
+				switch x.Call.Method.Name() {
+				case "NewBatch", "Delete", "Commit":
+					storageOps = append(storageOps, x)
+				}
+			}
+			if g := x.Call.StaticCallee(); g != nil && g != f && g.Pkg == f.Pkg && len(g.Blocks) > 0 && g.Signature.Recv() != nil {
+				engine.Instrs(g, func(i2 ssa.Instruction) {
+					if c2, ok := i2.(*ssa.Call); ok && c2.Call.IsInvoke() && (c2.Call.Method.Name() == "Delete" || c2.Call.Method.Name() == "Commit") {
+						storageOps = append(storageOps, x)
+					}
+				})
+			}
+		}
+	})
+	if rootStore == nil || len(storageOps) == 0 {
+		r.Anchor(rule, fmt.Errorf("unresolved anchor: root store / storage operations in %s", fn(f)))
+		return
+	}
+	bad := ""
+	for _, ret := range engine.Returns(f) {
+		after := false
+		for _, op := range storageOps {
+			if engine.ReachableAfter(op, ret) {
+				after = true
+			}
+		}
+		if after && !engine.InstrDominates(rootStore, ret) {
+			bad = r.P.Pos(ret.Pos())
+		}
+	}
+	r.Check(bad == "", rule, fn(f)+"|root installed on every path", r.P.Pos(rootStore.Pos()), "every return that follows a storage operation is dominated by the installation of the requested root",
+		"RollbackTrie can return ("+bad+") after it started purging storage without having installed the requested root: it has no result to report that, so after a storage fault the trie silently stays at the rolled-back commit's root and weight")
 }
